@@ -159,6 +159,66 @@ def _e3_wrap(toks, header, subst, locator):
     return res, log
 
 
+def _macro_invocation_bindings(repo, locator, ordinal):
+    """Rule E3c: the metavariable bindings of the `ordinal`-th (0-based) invocation `NAME!( args );` of the macro named
+    in `locator` (`<file> :: macro NAME#K :: ...`), read from the REAL file: the arm's matcher must have the simple
+    shape `( $a:frag, $b:frag, .. )` and every argument must be a single token.  This makes the instantiation a
+    function is verified for come from the code (`forward_conversion_to_repr!(RBig, reduce);`), not from the unit
+    template.  Anything else raises UnitProblem (exit-2 class)."""
+    parts = [x.strip() for x in locator.split('::')]
+    mac = [x for x in parts[1:] if x.startswith('macro ')]
+    if not mac:
+        raise UnitProblem('E3c: minvoke= on an item that is not inside a macro arm: ' + locator)
+    name, _, ordn = mac[0][6:].partition('#')
+    name = name.strip()
+    toks = extract.file_tokens(repo, parts[0])
+    try:
+        (ms, me), _ = extract._find_macro_arm(toks, 0, len(toks), name, int(ordn or 0))
+    except extract.ExtractError as e:
+        raise UnitProblem('E3c: %s' % e)
+    matcher = toks[ms + 1:me - 1]
+    names = []
+    i = 0
+    while i < len(matcher):
+        if i + 3 < len(matcher) and matcher[i] == ('p', '$') and matcher[i + 1][0] == 'id' \
+                and matcher[i + 2] == ('p', ':') and matcher[i + 3][0] == 'id':
+            names.append(matcher[i + 1][1])
+            i += 4
+            if i < len(matcher):
+                if matcher[i] != ('p', ','):
+                    raise UnitProblem('E3c: unsupported matcher shape of macro ' + name)
+                i += 1
+            continue
+        raise UnitProblem('E3c: unsupported matcher shape of macro ' + name)
+    hits = []
+    i = 0
+    while i + 2 < len(toks):
+        if toks[i] == ('id', name) and toks[i + 1] == ('p', '!') and toks[i + 2][0] == 'p' and toks[i + 2][1] in ('(', '[', '{') \
+                and not (i >= 2 and toks[i - 2] == ('id', 'macro_rules')):
+            e = rtok.match_close(toks, i + 2)
+            hits.append(toks[i + 3:e])
+            i = e
+        i += 1
+    if ordinal >= len(hits):
+        raise UnitProblem('E3c: macro %s has no invocation #%d in %s' % (name, ordinal, parts[0]))
+    args, cur, d = [], [], 0
+    for k, t in hits[ordinal]:
+        if k == 'p' and t in rtok.OPEN:
+            d += 1
+        elif k == 'p' and t in rtok.CLOSE:
+            d -= 1
+        if d == 0 and (k, t) == ('p', ','):
+            args.append(cur)
+            cur = []
+        else:
+            cur.append((k, t))
+    if cur:
+        args.append(cur)
+    if len(args) != len(names) or any(len(x) != 1 for x in args):
+        raise UnitProblem('E3c: invocation #%d of %s does not bind %s to single tokens' % (ordinal, name, names))
+    return dict((n, x[0][1]) for n, x in zip(names, args))
+
+
 def process_fn(repo, annot_rel, opts, mode, canary, base_variants):
     a = annot.load(os.path.join(CONTRACTS, 'annot', annot_rel))
     rec = FnRecord()
@@ -183,6 +243,17 @@ def process_fn(repo, annot_rel, opts, mode, canary, base_variants):
     rec.variant = sorted(variants)
     toks = annot.select_variant(toks, variants)
     e3log = []
+    if opts.get('minvoke') is not None:
+        # rule E3c: the substitution comes from the real macro invocation; `mexpect=t:RBig` pins which one this is
+        binds = _macro_invocation_bindings(repo, a.locator, int(opts['minvoke']))
+        for ent in (opts['mexpect'].split(',') if opts.get('mexpect') else []):
+            k_, v_ = ent.split(':', 1)
+            if binds.get(k_) != v_:
+                raise UnitProblem('E3c: invocation #%s of %s binds $%s to `%s`, the unit expects `%s`' % (
+                    opts['minvoke'], a.locator, k_, binds.get(k_), v_))
+        opts = dict(opts)
+        opts['msubst'] = ','.join('%s:%s' % kv for kv in binds.items())
+        e3log.append('E3c bindings of invocation #%s read from the source: %s' % (opts['minvoke'], opts['msubst']))
     if opts.get('msubst'):
         # rule E3b: a function extracted from inside a macro_rules arm mentions metavariables (`$t`); substitute the
         # instantiation named on the FN/SIG line (`msubst=t:f32,u:u64`); any other `$x` is an error
